@@ -456,6 +456,35 @@ def _evaluate(spec, cells, xyz32, kw, kind, pairs, n1, rev, rep, groups, cc_fram
             rt = x64[times[:, 1]][:, p1] - x64[times[:, 0]][:, p0]
             tlt = tolp(rt, times[:, 0]) if per else gc.tol_disp(rt)
             acc.cmp("opt=ref-t", "distances_t|%s|opt-vs-ref" % tag, np.abs(DTo.astype(float) - DTn), 2 * tlt, desc("t", None))
+        # ---- compute_distances_t with time-pair lists sorted by cell SHAPE (cells of mixed shape only) -------------
+        # list A: every second frame rectangular, first frames of every shape; list B: the mirror image.  The kernel choice
+        # must follow the cell that is used (first index), not the other column.
+        if per and varying and any(ortho) and not all(ortho):
+            rect = [f for f in range(F) if ortho[f]]
+            for lname, tlist in (("second-frames-rectangular", [(f, g) for f in range(F) for g in rect]),
+                                 ("first-frames-rectangular", [(g, f) for g in rect for f in range(F)])):
+                tl2 = np.array(tlist, dtype=np.int32)
+                rt2 = x64[tl2[:, 1]][:, p1] - x64[tl2[:, 0]][:, p0]
+                res2 = {}
+                for opt in (True, False):
+                    DT2 = np.asarray(md.compute_distances_t(mk(), pairs, tl2, periodic=True, opt=opt)).astype(np.float64)
+                    res2[opt] = DT2
+                    best = None
+                    for which in (0, 1):
+                        fc = tl2[:, which]
+                        ds, _ns = mimg(rt2, fc)
+                        tl = tolp(rt2, fc)
+                        dmt = [gc.in_domain(ds[i], hw[fc[i]], tl[i]) for i in range(len(tl2))]
+                        dom = np.array([np.ones(NP, bool) if ortho[fc[i]] else dmt[i][0] for i in range(len(tl2))])
+                        e = np.maximum(np.where(dom, np.abs(DT2 - ds), 0.0), np.maximum(ds - DT2, 0)) / tl
+                        if which == 1:       # other frame's cell only admissible for pairs of different frames
+                            e = np.where((tl2[:, 0] == tl2[:, 1])[:, None], np.inf, e)
+                        best = e if best is None else np.minimum(best, e)
+                    acc.cmp("t-min-image-by-shape", "distances_t|%s|%s|periodic|%s|not-minimum-image"
+                            % ("opt" if opt else "ref", kind, lname), best, 1.0,
+                            lambda w, tl2=tl2: "job=%s mode=%s time pair %s pair %s" % (spec["name"], spec["mode"], tl2[w[0]].tolist(), pairs[w[1]].tolist()))
+                acc.cmp("opt=ref-t-by-shape", "distances_t|%s|periodic|%s|opt-vs-ref" % (kind, lname), np.abs(res2[True] - res2[False]),
+                        2 * tolp(rt2, tl2[:, 0]), lambda w, tl2=tl2: "job=%s time pair %s pair %s" % (spec["name"], tl2[w[0]].tolist(), pairs[w[1]].tolist()))
         # ---- find_closest_contact -----------------------------------------------------------
         tag = "%s|%s" % (kind, "periodic" if periodic else "nonperiodic")
         t = mk()
@@ -584,7 +613,8 @@ def run(ctx):
                  "opt": [True, False], "periodic": [True, False],
                  "time_pairs": "rows (f,f), (f,f+2), (f,f+1) for every frame f (mod n_frames; compact jobs (f,f), (f,f+1)), then the "
                                "reverse chain (f+1,f): all 9 frame pairs for 3 frames, with runs (same first frame), chains "
-                               "(first frame = previous row's second) and reverse chains as adjacent rows",
+                               "(first frame = previous row's second) and reverse chains as adjacent rows; mixed-shape stacks: additionally the lists "
+                               "'every second frame rectangular' and 'every first frame rectangular'",
                  "compact_cells": compact, "compact_shapes": ["pair (2 atoms per frame)", "cluster (4 atoms per frame)"],
                  "pair_list_length_classes": BLOCK_SIZES,
                  "functions": ["compute_distances", "compute_displacements", "compute_distances_t", "find_closest_contact"]},
